@@ -963,6 +963,10 @@ package analysis
 //@   ensures result == selfParent(r)
 //@   loop 1: invariant forall j in 0..idx :: !(r.parents[j] == r.path || strings.HasPrefix(r.parents[j], r.path + "/"))
 
+//@ func isRecursiveNewRef(opts, r)
+//@   requires opts != nil && opts.flattenContext != nil && r != nil
+//@   modifies nothing
+
 //@ func stripOAIGen(opts)
 //@   requires opts != nil && opts.Spec != nil && opts.Spec.spec != nil && opts.flattenContext != nil
 //@   modifies heaps DOC, heaps INDEX, heaps FCTX
@@ -2505,6 +2509,11 @@ package analysis
 //@   loop 1: invariant failed == old(failed)
 //@   loop 2: invariant failed == old(failed)
 //@   loop 3: invariant failed == old(failed)
+
+//@ func isRecursiveNewRef(opts, r)
+//@   aspect safe
+//@   requires optsWF(opts) && r != nil
+//@   modifies nothing
 
 //@ func stripOAIGen(opts)
 //@   aspect safe
